@@ -86,6 +86,7 @@ def full_menu():
     out += [pw(pw(X, 2), 1.5), pw(pw(X, 2), 0.5), pw(pw(("bin", "*", X, Y), 2), 1.5), pw(pw(X, 2), -0.5),
             pw(pw(("bin", "+", X, Y), 2), 0.5), pw(pw(X, 3), 2), pw(pw(X, 0.5), 2), pw(pw(Y, 4), 0.25),
             ("sum", ("vbin", "**", ("vbin", "**", ("vbin", "*", V3, ("c", 2)), ("c", 2)), ("c", 1.5)))]
+    out += L.tiny_coefficient_rows()
     return out
 
 
